@@ -68,7 +68,7 @@ BUDGET = {'quick': 60, 'thorough': 700}
 F41 = 'F61-bus-sort-values-max-persist'
 F42 = 'F62-bus-placeholder-from-get-iter-element'
 F43 = 'F63-sqlite-integer-index-row-order'
-TAGS = {'sortv': F41, 'placeholder': F42, 'sqlite_order': F43, 'partial_read': bgen.F96}
+TAGS = {'sortv': F41, 'placeholder': F42, 'sqlite_order': F43}
 
 FMT_CORE = ['zip_pickle', 'zip_csv', 'zip_tsv', 'sqlite']
 FMT_OPTIONAL = {'xlsx': ('openpyxl', 'xlsxwriter'), 'hdf5': ('tables',), 'zip_parquet': ('pyarrow',)}
